@@ -4,6 +4,8 @@ Table facts are proved by evaluating the generated table (`decide`): they are
 re-checked whenever tools/lib/extract.py rewrites LA/Gen/ApiStates.lean.
 -/
 import LA.Model.Handle
+set_option linter.unusedSimpArgs false
+set_option linter.unusedVariables false
 namespace LA.Handle
 open LA.Gen.ApiStates
 
@@ -299,12 +301,17 @@ theorem kClose_kind (h : Handle) : (kClose h).1.kind = h.kind := by kt kClose
 theorem kFree_kind (h : Handle) : (kFree h).1.kind = h.kind := by
   simp only [kFree]; apply checked_kind; intro g; simp; split <;> simp [kClose_kind]
 
+theorem step_core (h : Handle) (op : Op) (o : Outcome) (halive : h.alive = true)
+    (hb : op.belongs h.kind = true) : step h op o = stepCore h op o := by
+  simp [step, halive, hb]
+
 theorem step_kind (h : Handle) (op : Op) (o : Outcome) : (step h op o).1.kind = h.kind := by
   unfold step
   split
   · rfl
   split
   · rfl
+  unfold stepCore
   cases op with
   | rOpen w reg =>
     have go : ∀ g : Handle, (checked (if reg = true then
@@ -480,5 +487,56 @@ theorem chk_match_archive_match_free (h : Handle) (body : Handle → Handle × R
 @[simp] theorem allowed_4 (st : St) : allowed st 4 = (st == .data) := by cases st <;> rfl
 @[simp] theorem allowed_1 (st : St) : allowed st 1 = (st == .new) := by cases st <;> rfl
 @[simp] theorem allowed_33 (st : St) : allowed st 33 = (st == .new || st == .closed) := by cases st <;> rfl
+
+/-! ### more table facts, and what close does to a handle of each kind -/
+
+/-- Table fact: over all kinds. -/
+theorem acceptFatal_eq : acceptFatal =
+    ["archive_match_free", "_archive_read_close", "_archive_read_free", "_archive_write_close",
+     "_archive_write_free", "_archive_write_disk_close", "_archive_write_disk_free"] := by decide
+
+theorem lit_not_exempt (f : String)
+    (h : (["archive_match_free", "_archive_read_close", "_archive_read_free", "_archive_write_close",
+     "_archive_write_free", "_archive_write_disk_close", "_archive_write_disk_free"].contains f) = false) :
+    f ∉ acceptFatal := by
+  rw [acceptFatal_eq]; intro hm
+  have := List.contains_iff_mem.mpr hm
+  simp_all
+
+theorem rClose_fst (o : Outcome) (h : Handle) (hk : h.kind = .read) :
+    (rClose o h).1 = if h.st = .closed then h else rCloseFilters { h with st := .closed } := by
+  simp only [rClose, chk_read_archive_read_close h _ hk, allowed_65535]
+  by_cases hc : h.st = .closed <;> simp [hc]
+
+theorem wClose_fst (o : Outcome) (h : Handle) (hk : h.kind = .write) :
+    (wClose o h).1 =
+      if h.st = .new ∨ h.st = .closed then h
+      else if h.st = .fatal then wCloseFilters h
+      else { wCloseFilters (if h.st = .data then relEnt h else h) with st := .closed } := by
+  simp only [wClose, chk_write_archive_write_close h _ hk, allowed_65535]
+  cases hs : h.st <;> simp [hs, fatal_eta]
+
+theorem dClose_fst (o : Outcome) (h : Handle) (hk : h.kind = .writeDisk) :
+    (dClose o h).1 =
+      if h.st = .fatal then relFixups (relEnt (relFd h))
+      else if h.st = .header then relFixups h
+      else if h.st = .data then
+        (if o.alt = 2 then relFixups (relFd h) else relFixups { relEnt (relFd h) with st := .header })
+      else { h with st := .fatal } := by
+  simp only [dClose, dFinishEntry, chk_writeDisk_archive_write_disk_close h _ hk,
+    chk_writeDisk_archive_write_disk_finish_entry h _ hk]
+  cases hs : h.st <;> simp [hs]
+  split <;> simp
+
+theorem kClose_fst (h : Handle) (hk : h.kind = .readDisk) :
+    (kClose h).1 = kCloseTree (if h.st = .fatal then h else { h with st := .closed }) := by
+  simp only [kClose, chk_readDisk_archive_read_close h _ hk, allowed_65535]
+  cases hs : h.st <;> simp [hs]
+
+theorem step_close (h : Handle) (o : Outcome) (halive : h.alive = true) :
+    (step h .close o).1 = match h.kind with
+      | .read => (rClose o h).1 | .write => (wClose o h).1 | .writeDisk => (dClose o h).1
+      | .readDisk => (kClose h).1 | .«match» => h := by
+  cases hk : h.kind <;> simp [step, stepCore, halive, hk, Op.belongs]
 
 end LA.Handle
